@@ -236,17 +236,24 @@ class SourceFile:
             body = "{ " + body + " }"
         return f"fn {name}{sig} {body}", self.toks[k].start, self.toks[bc].end
 
-    def range_as_fn(self, it: Item, start: str, stop: str, name: str, sig: str):
+    def range_as_fn(self, it: Item, start: str, stop: str, name: str, sig: str, nth: int = 0, total: int = 0):
         """rule X5: the statements of fn item `it` from the literal `start` to the literal `stop` (both inclusive, each
         occurring exactly once in the body) re-headed as `fn <name><sig> { .. }`.  Returns (text, char_start, char_end)."""
         lo, hi = self.toks[it.body_open].start, self.toks[self.toks[it.body_open].mate].end
         body = self.src[lo:hi]
-        if body.count(start) != 1 or body.count(stop) != 1:
-            raise LostAnchor(f"range anchors occur {body.count(start)}/{body.count(stop)} times: {start[:40]!r} .. {stop[:40]!r}")
-        a = lo + body.find(start)
-        b = lo + body.find(stop) + len(stop)
-        if b <= a:
-            raise LostAnchor("range: stop anchor precedes start anchor")
+        # the start anchor must be unique; the stop anchor is its first occurrence after the start
+        # `range[k/n]`: the k-th of exactly n occurrences of the start anchor; plain `range`: the anchor must be unique
+        want = total or 1
+        if body.count(start) != want:
+            raise LostAnchor(f"range start anchor occurs {body.count(start)} times (expected {want}): {start[:40]!r}")
+        ra = -1
+        for _ in range(nth or 1):
+            ra = body.find(start, ra + 1)
+        rb = body.find(stop, ra + len(start))
+        if rb < 0:
+            raise LostAnchor(f"range stop anchor does not occur after the start anchor: {stop[:40]!r}")
+        a = lo + ra
+        b = lo + rb + len(stop)
         txt = self.src[a:b]
         # the range must be bracket-balanced
         tk = lex(txt)
